@@ -45,6 +45,7 @@ CLAUSES = {
     "ping/pong": "proved (pingpong_roundtrip)",
     "parse-only message classes (headers, cfilter, cfheaders, cfcheckpt)": "proved: parse (Spec.encode m) = m (headers_parse_encode, headers_rejects_txcount, cfilter_parse_encode, cfheaders_parse_encode, cfcheckpt_parse_encode); Spec = Buidl.Spec.Wire written from the protocol documentation",
     "serialise-only message classes (getheaders, getdata, getcfilters/getcfheaders, getcfcheckpt)": "proved: Spec.decode (serialize m) = m (getheaders_decode_serialize, getdata_decode_serialize, getcfilters_decode_serialize, getcfcheckpt_decode_serialize)",
+    "message objects do not remember earlier calls (GetDataMessage add/serialize histories, envelope / version / header re-serialised after a field change, every query twice)": "correspondence-only (getdata_history against the model's serialisation of the items added so far; object_reuse against a freshly built object)",
     "version message": "proved: Spec.decodeVersion (serialize m) = m for fields of protocol width (version_decode_serialize, version_serialize_eq); observation O19c: ports are written little-endian (the protocol says big-endian), self-consistent, version is never parsed by the library",
     "merkleblock parse": "model = byte layout transcribed from the protocol documentation (Spec.encodeMerkleBlock); correspondence-only at the message level, the proof content of merkleblock is C17's",
 }
@@ -222,7 +223,59 @@ def p_pingpong_rt(c):
     return got == n8, xb(got), xb(n8)
 
 
-PREDICATES = {"varint_roundtrip": p_varint_rt, "env_roundtrip": p_env_rt, "env_must_reject": p_env_must_reject,
+def p_getdata_history(c):
+    """one GetDataMessage object: add_data / serialize interleaved; every serialize must be the protocol
+    encoding of the items added SO FAR (expected values supplied by the model driver in c['expect'])"""
+    import buidl.network as N
+    m = N.GetDataMessage()
+    got, k = [], 0
+    for step in c["steps"]:
+        if step[0] == "add":
+            m.add_data(step[1], unx(step[2]))
+        else:
+            got.append(xb(m.serialize()))
+            got.append(xb(m.serialize()))  # asked twice
+    want = [e for e in c["expect"] for _ in (0, 1)]
+    return got == want, got[:6], want[:6]
+
+
+def p_object_reuse(c):
+    """serialise / hash the same message object several times, and again after a field change"""
+    import buidl.network as N
+    import buidl.block as B
+    kind = c["obj"]
+    if kind == "envelope":
+        e = N.NetworkEnvelope(unx(c["cmd"]), unx(c["payload"]), network=c["net"])
+        a = e.serialize(); b = e.serialize()
+        e.payload = unx(c["payload2"])
+        d = e.serialize()
+        fresh = N.NetworkEnvelope(unx(c["cmd"]), unx(c["payload2"]), network=c["net"]).serialize()
+        return a == b and d == fresh, [xb(a) == xb(b), xb(d)[:60]], [True, xb(fresh)[:60]]
+    if kind == "version":
+        kw = dict(version=c["v"], services=0, timestamp=c["ts"], receiver_services=0, receiver_ip=b"\x01\x02\x03\x04",
+                  receiver_port=c["rp"], sender_services=0, sender_ip=b"\x05\x06\x07\x08", sender_port=c["sp"],
+                  nonce=unx(c["nonce"]), user_agent=b"/x/", latest_block=5, relay=True)
+        m = N.VersionMessage(**kw)
+        a = m.serialize(); b = m.serialize()
+        m.sender_port = c["sp2"]; m.latest_block = 6
+        d = m.serialize()
+        kw.update(sender_port=c["sp2"], latest_block=6)
+        fresh = N.VersionMessage(**kw).serialize()
+        return a == b and d == fresh, [a == b, xb(d)], [True, xb(fresh)]
+    if kind == "header":
+        raw = unx(c["raw"])
+        h = B.Block.parse_header(io.BytesIO(raw))
+        a = (h.serialize(), h.hash()); b = (h.serialize(), h.hash())
+        h.nonce = unx(c["nonce2"])
+        d = (h.serialize(), h.hash())
+        f = B.Block.parse_header(io.BytesIO(raw[:76] + unx(c["nonce2"])))
+        fresh = (f.serialize(), f.hash())
+        return a == b and d == fresh, [a == b, xb(d[1])], [True, xb(fresh[1])]
+    raise KeyError(kind)
+
+
+PREDICATES = {"getdata_history": p_getdata_history, "object_reuse": p_object_reuse,
+              "varint_roundtrip": p_varint_rt, "env_roundtrip": p_env_rt, "env_must_reject": p_env_must_reject,
               "hdr_parse_serialize": p_hdr_ps, "pingpong_roundtrip": p_pingpong_rt}
 
 
@@ -377,6 +430,34 @@ def run(ctx):
         if rng.random() < 0.15:
             ms = ms[: rng.randrange(0, len(ms) + 1)]
         lines.append(("merkleblock_parse", f"merkleblock_parse {xb(ms + rbytes(rng, rng.choice([0, 0, 2])))}"))
+
+    # object-reuse histories (the library's message objects must not remember earlier calls)
+    hist = []
+    for k in range(ctx.n(40)):
+        steps, items, ser_lines = [], [], []
+        for _ in range(rng.randrange(2, 9)):
+            if rng.random() < 0.55 or not steps:
+                t, i = rng.choice([1, 2, 3, (1 << 30) + 1]), rbytes(rng, 32)
+                steps.append(["add", t, xb(i)])
+                items.append((t, i))
+            else:
+                steps.append(["ser"])
+                ser_lines.append("getdata_ser " + " ".join([str(len(items))] + [f"{t} {xb(i)}" for t, i in items]))
+        steps.append(["ser"])
+        ser_lines.append("getdata_ser " + " ".join([str(len(items))] + [f"{t} {xb(i)}" for t, i in items]))
+        hist.append((steps, ser_lines))
+    flat = [l for _, sl in hist for l in sl]
+    hans = batch_parallel(drv, flat, workers=ctx.workers) if flat else []
+    pos = 0
+    for steps, sl in hist:
+        preds.append(("getdata_history", {"steps": steps, "expect": hans[pos:pos + len(sl)]}))
+        pos += len(sl)
+    for k in range(ctx.n(30)):
+        preds.append(("object_reuse", {"obj": "envelope", "net": rng.choice(NETS), "cmd": xb(rbytes(rng, rng.randrange(1, 12)).strip(b"\x00") or b"a"),
+                                       "payload": xb(rbytes(rng, rng.randrange(0, 60))), "payload2": xb(rbytes(rng, rng.randrange(0, 60)))}))
+        preds.append(("object_reuse", {"obj": "version", "v": rng.getrandbits(31), "ts": rng.getrandbits(40), "rp": rng.getrandbits(16),
+                                       "sp": rng.getrandbits(16), "sp2": rng.getrandbits(16), "nonce": xb(rbytes(rng, 8))}))
+        preds.append(("object_reuse", {"obj": "header", "raw": xb(rbytes(rng, 80)), "nonce2": xb(rbytes(rng, 4))}))
 
     # run both sides
     answers = batch_parallel(drv, [model_line(l) for _, l in lines], workers=ctx.workers)
